@@ -93,6 +93,7 @@ type FnCtx struct {
 	entryAssumes []*Clause
 	errGlobals   []string
 	lemmaVCs     []lemmaVC
+	modTab       map[string]*modEntry
 	specErrors    []string
 	callbackCalls []string
 	externUsed    map[string]bool
@@ -111,6 +112,8 @@ type loopInfo struct {
 	back    []*ssa.BasicBlock // sources of back edges
 	entryEnv map[string]*Val
 	phiFresh map[*ssa.Phi]*Val
+	havocked []Comp
+	preState *State
 }
 
 func (tr *FnCtx) fresh(base string) string {
@@ -457,6 +460,16 @@ func (tr *FnCtx) assumeLoaded(st *State, v *Val) {
 			tr.assume("(< " + v.A[0] + " " + tr.cur(st, compAlloc) + ")")
 			tr.assume("(<= 0 " + v.A[0] + ")")
 		}
+		if _, ok := structOf(v.T); ok && !tr.W.isOpaqueNamed(v.T) {
+			atoms := tr.W.flatten(v.T)
+			if len(atoms) == len(v.A) {
+				for i, a := range atoms {
+					if a.Ref {
+						tr.assume("(isold " + v.A[i] + " " + tr.cur(st, compAlloc) + ")")
+					}
+				}
+			}
+		}
 	}
 }
 
@@ -513,7 +526,7 @@ func (tr *FnCtx) publish(st *State, v *Val) {
 		return
 	}
 	if pt, ok := v.T.Underlying().(*types.Pointer); ok && len(v.A) == 1 && v.Loc == nil {
-		if _, isStruct := structOf(pt.Elem()); isStruct {
+		if _, isStruct := structOf(pt.Elem()); isStruct && !tr.W.isOpaqueNamed(pt.Elem()) {
 			tr.set(st, compPub, store(tr.cur(st, compPub), v.A[0], "true"))
 		}
 	}
@@ -928,7 +941,10 @@ func (tr *FnCtx) instr(st *State, in ssa.Instruction, b *ssa.BasicBlock, idx int
 		v := tr.val(x.Val)
 		tr.lockAccess(st, p, true, x)
 		tr.storeTo(st, p, &Val{T: x.Val.Type(), A: v.A})
-		if p.Loc == nil || p.Loc.Kind == LField {
+		if _, isVarCell := x.Addr.(*ssa.Alloc); isVarCell {
+			// store into a variable of this function (heap cell only because a closure captures it later):
+			// the value becomes shared when the closure is created, see MakeClosure
+		} else if p.Loc == nil || p.Loc.Kind == LField {
 			tr.publish(st, v)
 		}
 	case *ssa.Lookup:
@@ -945,8 +961,14 @@ func (tr *FnCtx) instr(st *State, in ssa.Instruction, b *ssa.BasicBlock, idx int
 		fn := x.Fn.(*ssa.Function)
 		ci := &closureInfo{Fn: fn}
 		for _, bnd := range x.Bindings {
-			ci.Bindings = append(ci.Bindings, tr.val(bnd))
-			tr.publish(st, tr.val(bnd))
+			bv := tr.val(bnd)
+			ci.Bindings = append(ci.Bindings, bv)
+			tr.publish(st, bv)
+			if al, ok := bnd.(*ssa.Alloc); ok && bv.Loc == nil {
+				// captured variable: its current content is now reachable from the closure
+				content := tr.loadFrom(st, bv, al.Type().(*types.Pointer).Elem())
+				tr.publish(st, content)
+			}
 		}
 		a := tr.freshConst("clos", "Int")
 		tr.assume("(> " + a + " 0)")
